@@ -93,17 +93,17 @@ theorem nodup_keysAfter (known : Bytes → Bool) (a k : List Bytes) (hk : k.Nodu
 
 /-- What a successful run of the member loop over a duplicate-free member list `ms` does to the
 destination `m`, resulting in `m'`. -/
-structure Facts (dec : Bytes → Option Dec) (z : Bytes → GoVal) (ms : List (Bytes × JTree))
+structure Facts (o : UOpts) (dec : Bytes → Option Dec) (z : Bytes → GoVal) (ms : List (Bytes × JTree))
     (m m' : List (Bytes × GoVal)) : Prop where
   known : ∀ n j f, (n, j) ∈ ms → dec n = some f →
     ∃ v, f j ((alookup n m).getD (z n)) = .ok v ∧ alookup n m' = some v
-  unknown : ∀ n j, (n, j) ∈ ms → dec n = none → j.dupFree = true
+  unknown : ∀ n j, (n, j) ∈ ms → dec n = none → skipOK o j = true
   frame : ∀ n, (n ∉ akeys ms ∨ dec n = none) → alookup n m' = alookup n m
   keys : akeys m' = keysAfter (fun n => (dec n).isSome) (akeys ms) (akeys m)
 
-theorem objFold_facts {dec : Bytes → Option Dec} {z : Bytes → GoVal} {ms : List (Bytes × JTree)}
+theorem objFold_facts {o : UOpts} {dec : Bytes → Option Dec} {z : Bytes → GoVal} {ms : List (Bytes × JTree)}
     {seen : List Bytes} {m m' : List (Bytes × GoVal)} (hnd : (akeys ms).Nodup)
-    (h : objFold dec z ms seen m = .ok m') : Facts dec z ms m m' := by
+    (h : objFold o dec z ms seen m = .ok m') : Facts o dec z ms m m' := by
   induction ms generalizing seen m with
   | nil =>
     simp only [objFold, Except.ok.injEq] at h
@@ -179,10 +179,10 @@ theorem objFold_facts {dec : Bytes → Option Dec} {z : Bytes → GoVal} {ms : L
             congr 1
             cases (akeys m).contains n <;> simp
 
-theorem objFold_of_facts {dec : Bytes → Option Dec} {z : Bytes → GoVal} {ms : List (Bytes × JTree)}
+theorem objFold_of_facts {o : UOpts} {dec : Bytes → Option Dec} {z : Bytes → GoVal} {ms : List (Bytes × JTree)}
     {seen : List Bytes} {m m' : List (Bytes × GoVal)} (hnd : (akeys ms).Nodup)
     (hseen : ∀ n, n ∈ akeys ms → n ∉ seen) (hm : (akeys m).Nodup)
-    (F : Facts dec z ms m m') : objFold dec z ms seen m = .ok m' := by
+    (F : Facts o dec z ms m m') : objFold o dec z ms seen m = .ok m' := by
   induction ms generalizing seen m with
   | nil =>
     simp only [objFold, Except.ok.injEq]
@@ -201,7 +201,7 @@ theorem objFold_of_facts {dec : Bytes → Option Dec} {z : Bytes → GoVal} {ms 
       cases List.mem_cons.1 hc with
       | inl e => subst e; exact hnd.1 hn'
       | inr e => exact hseen n' (by rw [akeys_cons]; exact List.mem_cons_of_mem _ hn') e
-    simp only [objFold, hns, Bool.false_eq_true, if_false]
+    simp only [objFold, hns, Bool.and_false, Bool.false_eq_true, if_false]
     cases hd : dec n with
     | none =>
       simp only []
@@ -365,16 +365,16 @@ theorem mem_mergedMembers {ms1 ms2 : List (Bytes × JTree)} {n : Bytes} {x : JTr
 /-- Folding `ms1` and then `ms2` into a destination `m0` all of whose present entries are zero
 equals folding the merged member list, provided every decoder satisfies the merge law on the
 members of `ms1` (from its zero value). -/
-theorem objFold_merge {dec : Bytes → Option Dec} {z : Bytes → GoVal} {ms1 ms2 : List (Bytes × JTree)}
+theorem objFold_merge {o : UOpts} {dec : Bytes → Option Dec} {z : Bytes → GoVal} {ms1 ms2 : List (Bytes × JTree)}
     {m0 m1 m2 : List (Bytes × GoVal)}
     (hnd1 : (akeys ms1).Nodup) (hnd2 : (akeys ms2).Nodup)
     (hdf1 : ∀ n x, (n, x) ∈ ms1 → x.dupFree = true) (hdf2 : ∀ n x, (n, x) ∈ ms2 → x.dupFree = true)
     (hnd0 : (akeys m0).Nodup) (hm0 : ∀ n, (alookup n m0).getD (z n) = z n)
-    (hdm : ∀ n a, (n, a) ∈ ms1 → ∀ b, a.dupFree = true → b.dupFree = true → (JTree.merge a b).dupFree = true)
+    (hdm : ∀ n a, (n, a) ∈ ms1 → ∀ b, a.dupFree = true → b.dupFree = true → skipOK o (JTree.merge a b) = true)
     (hML : ∀ n a, (n, a) ∈ ms1 → ∀ f, dec n = some f → ∀ b v1 v2, a.dupFree = true → b.dupFree = true →
       f a (z n) = .ok v1 → f b v1 = .ok v2 → f (JTree.merge a b) (z n) = .ok v2)
-    (h1 : objFold dec z ms1 [] m0 = .ok m1) (h2 : objFold dec z ms2 [] m1 = .ok m2) :
-    objFold dec z (mergedMembers ms1 ms2) [] m0 = .ok m2 := by
+    (h1 : objFold o dec z ms1 [] m0 = .ok m1) (h2 : objFold o dec z ms2 [] m1 = .ok m2) :
+    objFold o dec z (mergedMembers ms1 ms2) [] m0 = .ok m2 := by
   have F1 := objFold_facts hnd1 h1
   have F2 := objFold_facts hnd2 h2
   apply objFold_of_facts (nodup_mergedMembers hnd1 hnd2) (by intro n _ h; cases h) hnd0
@@ -403,9 +403,9 @@ theorem objFold_merge {dec : Bytes → Option Dec} {z : Bytes → GoVal} {ms1 ms
     rcases mem_mergedMembers hm with ⟨a, ha, rfl⟩ | ⟨hx2, hn1⟩
     · unfold mergedWith
       cases hb : alookup n ms2 with
-      | none => exact hdf1 n a ha
+      | none => simp [skipOK, hdf1 n a ha]
       | some b => exact hdm n a ha b (hdf1 n a ha) (hdf2 n b (alookup_mem hb))
-    · exact hdf2 n x hx2
+    · simp [skipOK, hdf2 n x hx2]
   · intro n hn
     cases hn with
     | inl hn =>
